@@ -37,6 +37,10 @@ pub struct Case {
     /// accents - a single grapheme cluster of 2n + 1 bytes (0 = nothing added)
     #[serde(default)]
     pub big_cluster: usize,
+    /// the sparse matrix is built from a batch that mixes groupings of two tokenizers, one with sum
+    /// and one with mean aggregation (items with an odd second component use the other one)
+    #[serde(default)]
+    pub mixed_agg: bool,
 }
 
 pub struct C17;
@@ -52,7 +56,7 @@ impl Prop for C17 {
         crate::fuzzdec::c17(bytes)
     }
     const RULE: &'static str = "batches of 1-6 Unicode texts (fragment pools incl. special-token spellings, multi-code-point clusters, empty strings) x byte tokenizer configs (byte/code-point groups, graphemes, pad_to_multiple_of, mean/sum) x special configs with prefix/suffix x ignore_special_tokens x train task (whitespace correction, generation with/without input masking and separator, conditional generation with the same or a differently configured target tokenizer (special tokens in reverse order, hence another pad id), classification). Oracle: exact expected group structure per tokenization and sum of group lengths = #ids; sparse COO matrix: one entry per token, indices inside the declared size, each (batch, token) once, token->group assignment equals the grouping, per-group weights sum to 1 (mean) / are all 1 (sum), padding mask; tensorised id/label matrices = item values followed only by padding, true lengths, width = max length. Non-trivial: batch of >= 2 items of different lengths with a prefix or suffix and a multi-code-point cluster. Distinct = distinct serialised case.";
-    const ESSENTIAL: &'static [&'static str] = &["bytes_groups", "code_point_groups", "mean", "sum", "special_in_text", "prefix_suffix", "multi_cp_cluster", "empty_text", "task_ws", "task_gen", "task_cond", "task_cls", "different_lengths", "target_tokenizer_differs", "cluster_of_65536_bytes_or_more"];
+    const ESSENTIAL: &'static [&'static str] = &["bytes_groups", "code_point_groups", "mean", "sum", "special_in_text", "prefix_suffix", "multi_cp_cluster", "empty_text", "task_ws", "task_gen", "task_cond", "task_cls", "different_lengths", "target_tokenizer_differs", "cluster_of_65536_bytes_or_more", "mixed_aggregation_batch"];
 
     fn budget(tier: Tier) -> Budget {
         match tier {
@@ -85,6 +89,7 @@ impl Prop for C17 {
                         separator,
                         target_reversed,
                         big_cluster: 0,
+                        mixed_agg: false,
                     })
             })
             .prop_flat_map(|c| {
@@ -95,6 +100,7 @@ impl Prop for C17 {
                     1 => select(vec![32767usize, 32768, 32769, 65535, 65536, 65537, 127, 128]).prop_map(move |n| Case { big_cluster: n, ..c.clone() }),
                 ]
             })
+            .prop_flat_map(|c| prop_oneof![3 => Just(c.clone()), 1 => Just(Case { mixed_agg: true, ..c })])
             .boxed()
     }
 
@@ -148,13 +154,31 @@ impl Prop for C17 {
         let agg = if *sum { GroupAggregation::Sum } else { GroupAggregation::Mean };
         let key = if *code_point_groups { "code_point_groups" } else { "byte_groups" };
 
+        // the other tokenizer of a mixed batch: same configuration, the other aggregation
+        let other_kind = match &c.kind {
+            Kind::Byte { graphemes, code_point_groups, pad_to, sum } => Kind::Byte { graphemes: *graphemes, code_point_groups: *code_point_groups, pad_to: *pad_to, sum: !*sum },
+            k => k.clone(),
+        };
+        let tok_other = match tokenizer(by_kind_cfg(&other_kind, &c.special)) {
+            Ok(t) => t,
+            Err(e) => {
+                out.fail(format!("tokenizer construction failed: {e}"));
+                return out;
+            }
+        };
+        out.label_if(c.mixed_agg, "mixed_aggregation_batch");
+        let mut item_sum: Vec<bool> = vec![];
+
         // ---- (A) groups of every tokenization
         let mut groupings: Vec<Grouping> = vec![];
         let mut lengths: Vec<usize> = vec![];
         let mut multi_cp = false;
-        for (text, _) in &c.items {
+        for (text, r) in &c.items {
             out.label_if(text.is_empty(), "empty_text");
-            let t = match tok.tokenize(text, c.ignore_special) {
+            let use_other = c.mixed_agg && r % 2 == 1;
+            let agg = if use_other { if *sum { GroupAggregation::Mean } else { GroupAggregation::Sum } } else { agg };
+            item_sum.push(agg == GroupAggregation::Sum);
+            let t = match (if use_other { &tok_other } else { &tok }).tokenize(text, c.ignore_special) {
                 Ok(t) => t,
                 Err(e) => {
                     out.fail(format!("tokenize failed: {e}"));
@@ -243,15 +267,18 @@ impl Prop for C17 {
             ensure!(out, seen.insert((b, t)), "token ({b},{t}) has two entries");
             ensure!(out, want_entries.get(&(b, t)) == Some(&gi), "token ({b},{t}) assigned to group {gi}, grouping says {:?}", want_entries.get(&(b, t)));
             *sums.entry((b, gi)).or_insert(0.0) += values[k] as f64;
-            if *sum {
+            if item_sum[b] {
                 ensure!(out, values[k] == 1.0, "sum aggregation with weight {}", values[k]);
             } else {
                 ensure!(out, values[k] > 0.0 && values[k] <= 1.0, "mean aggregation with weight {}", values[k]);
             }
         }
         ensure!(out, seen.len() == stride, "not every token has an entry");
-        if !*sum {
+        {
             for ((b, gi), s) in &sums {
+                if item_sum[*b] {
+                    continue;
+                }
                 ensure!(out, (s - 1.0).abs() < 1e-5, "weights of group ({b},{gi}) sum to {s}");
             }
         }
